@@ -71,11 +71,12 @@ copyreg.pickle(types.MethodType, _pickle_method, _unpickle_method)
 ###################################################################
 
 def ignore_aliases(data):
+    # scalars are never aliased (checked first: len() of a number raises)
+    if data is None or isinstance(data, (str, bool, int, float, complex,
+                                         np.generic)):
+        return True
     try:
-        # numpy arrays no longer want to be compared to None, so instead check for a none by looking for if it is an instance of NoneType
-        if data is None or len(data) == 0:
-            return True
-        if isinstance(data, (str, bool, int, float)):
+        if len(data) == 0:
             return True
     except TypeError as e:
         pass
@@ -98,8 +99,11 @@ yaml.add_representer(tuple, tuple_representer)
 
 # represent numpy types as things that will print more cleanly
 def complex_representer(dumper, data):
-    return dumper.represent_scalar('!complex', repr(data.tolist()))
+    return dumper.represent_scalar('!complex', repr(complex(data)))
 yaml.add_representer(np.complex128, complex_representer)
+# python complex gets the same tag, so that a reloaded object saves identically
+yaml.add_representer(complex, complex_representer)
+yaml.add_multi_representer(np.complexfloating, complex_representer)
 def complex_constructor(loader, node):
     return complex(node.value)
 for loader in YAMLLOADERS:
@@ -113,6 +117,13 @@ def numpy_int_representer(dumper, data):
     return dumper.represent_int(int(data))
 yaml.add_representer(np.int64, numpy_int_representer)
 yaml.add_representer(np.int32, numpy_int_representer)
+# every other numpy scalar kind (float32, int16, uint8, bool_, ...) would be
+# written as !!python/object/apply, which the loader refuses
+yaml.add_multi_representer(np.floating, numpy_float_representer)
+yaml.add_multi_representer(np.integer, numpy_int_representer)
+def numpy_bool_representer(dumper, data):
+    return dumper.represent_bool(bool(data))
+yaml.add_representer(np.bool_, numpy_bool_representer)
 
 
 # numpy ufuncs can no longer be pickled as of numpy 1.20
